@@ -22,6 +22,11 @@ def pairings(tier, seed):
     quick = tier == "quick"
     out = []
     sysc = zoo.system_configs(seed, tier, all_convs=False, dims=(2,) if quick else (1, 2, 3))
+    if quick:  # manifolds of dimension 2 need d = 3
+        sysc += [c for c in zoo.system_configs(seed, tier, all_convs=False, dims=(3,),
+                                               families=("constrained", "gaussian_constrained"))
+                 if c["constraint"] in ("ellipsoid", "sphere")
+                 and c["metric"] in ("dense_pd", "identity")]
     tract = izoo.tractable_recipes(tier)
     for sc in sysc:
         if quick and sc["target"] != "quartic":
@@ -43,6 +48,14 @@ def pairings(tier, seed):
             for tight in (False, True):
                 for r in izoo.implicit_recipes(tight):
                     out.append((sc, r))
+            if sc["kind"] == "scalar" and sc["conv"] == "plain":
+                # strongly curved metric: implicit equations with several solutions
+                for kind2 in ("scalar_strong", "diagonal_strong", "diagonal_strong9"):
+                    for tn in ("quartic", "gauss"):
+                        sc2 = dict(sc, kind=kind2, target=tn)
+                        for tight in (False, True):
+                            for r in izoo.implicit_recipes(tight):
+                                out.append((sc2, r))
         else:
             if quick and sc["metric"] not in ("identity", "dense_pd", "none",
                                               "low_rank_downdate"):
@@ -113,6 +126,12 @@ def check_roundtrip(cfg, acc):
     seed = cfg["system"]["seed"]
     sts = zoo.on_manifold_states(case, seed, 2) if case.constraint is not None \
         else zoo.states(case.d, seed, 2)
+    strong = str(cfg["system"].get("kind", "")).endswith(("strong", "strong9"))
+    if strong:
+        dd = case.d
+        sts = sts + [(np.array([0.1, -1.0, 0.3])[:dd], np.array([1.5, 0.5, -0.7])[:dd]),
+                     (np.array([-0.05, 0.5, 0.2])[:dd], np.array([-2.0, -1.0, 0.5])[:dd]),
+                     (np.array([0.02, 0.5, -0.4])[:dd], np.array([2.0, 0.5, 1.0])[:dd])]
     tight = bool(rec[2]) if fam in ("implicit_leapfrog", "implicit_midpoint") else (
         bool(rec[3]) if fam == "constrained" else True)
     for eps in EPS:
@@ -127,6 +146,8 @@ def check_roundtrip(cfg, acc):
                     acc.count("evaluations")
                     status, info = roundtrip(integ, q, p, direction, n)
                     acc.count("roundtrip_" + status)
+                    if status == "refused":
+                        acc.count("refused_" + info["error"])
                     if eps <= 0.2:
                         acc.count("small_eps_total")
                         if status == "ok":
